@@ -190,10 +190,9 @@ pub fn check_case(case: &Case, ctx: &mut Ctx) {
                 (concat!("&1", stringify!($t), " / &x"), ctx.guard(|| &one / &b)),
             ];
             for (name, r) in forms {
-                let g = judge(ctx, case, name, r, &x, dp);
-                if let (Some(g), Some(base)) = (&g, &base) {
-                    ctx.check(g == base, "inverse/one-over-x-differs-from-inverse", case, || format!("`{}` = {} but inverse() = {}", name, g.tok(), base.tok()));
-                }
+                // (judged by the same four clauses; the statement does not require `1 / x` and inverse() to be identical)
+                let _ = judge(ctx, case, name, r, &x, dp);
+                let _ = &base;
             }
         }}; }
         match sel {
